@@ -149,6 +149,17 @@ def judge_hist(s, ev, res):
     buf = s.h._buffer
     before = place.whole(buf)
     n0 = len(buf.log)
+    parent = None
+    if ev[0] == "set" and s.t[0] != "U" and any(q in ("*", "#") for q in ev[2]):
+        # a leaf reached through a reference: where the compound that holds it lies NOW, located through a fresh view
+        # (the old target of a reference that was re-bound meanwhile is not part of the object any more)
+        try:
+            pt, ph = hand.nav(s.t, hist.view_of(s), ev[2][:-1])
+            if pt[0] == "U" and hasattr(ph, "get"):
+                ph = ph.get()
+            parent = (int(ph._offset), int(ph._offset) + hand.size_of(ph))
+        except Exception:
+            parent = None
     try:
         with common.Watchdog(30):
             hist.apply_event(s, ev)
@@ -157,6 +168,9 @@ def judge_hist(s, ev, res):
         return [], False
     after = place.whole(buf)
     regions = allowed_regions(buf.log)
+    if parent is not None:
+        regions = [parent]
+        res.oracles["confinement-to-current-target"] += 1
     if ev[0] in ("set", "setc") and not any(q in ("*", "#") for q in ev[2]) and s.t[0] != "U":
         # the element is not reached through a reference: only the object's own extent and what this very assignment
         # allocated may change (a referent bound BEFORE, e.g. the old target of a reference that is being rebound, may not)
@@ -216,7 +230,9 @@ def run_shard(shard, tier, seed):
         res.max_depth = max(res.max_depth, 1)
     else:
         _, t, vmode, pname = shard
-        seen = hist.explore(t, vmode, pname, 1 if tier == "quick" else 3, OPTS, judge_hist, res, seed)
+        # types holding references get one more level in the quick tier: what an older handle remembers about a reference
+        # only matters after the reference was re-bound through another handle
+        seen = hist.explore(t, vmode, pname, (2 if xt.has_refs(t) else 1) if tier == "quick" else 3, OPTS, judge_hist, res, seed)
         if seen:
             res.states = res.nontrivial = len(seen)
     return res
